@@ -26,7 +26,7 @@ CLAIMS = {
         "technique": T_MITER,
     },
     "C05": {
-        "text": "Proved for all operand word patterns: TwoFloat/f64, /=f64 and new_div are bit-identical to Alg. 15 (DWDivFP3); recip(x) == 1.0/x bit for bit; /= TwoFloat == / (C10). Proved for valid in-range operands: x/(+-1.0) exact, x/2^k exact without underflow, zero numerator => zero (all three pairings). Native ground set: x/x == 1, x/TwoFloat(+-1), x/TwoFloat(8), recip on 126 structured operands. NOT decided: the 16*2^-106 bound of the three-digit long division (f64/TwoFloat, TwoFloat/TwoFloat, /=, recip) and x/x == 1 for all x.",
+        "text": "Proved for all operand word patterns: TwoFloat/f64, /=f64 and new_div are bit-identical to Alg. 15 (DWDivFP3); recip(x) == 1.0/x bit for bit; /= TwoFloat == / (C10). Proved for valid in-range operands: x/(+-1.0) exact, x/2^k exact without underflow, zero numerator => zero (all three pairings). Native ground set: x/x == 1, x/TwoFloat(+-1), x/TwoFloat(8), recip on 126 structured operands. NOT decided: the 16*2^-106 bound of the three-digit long division (f64/TwoFloat, TwoFloat/TwoFloat, /=, recip) and x/x == 1 for all x. The 16*2^-106 clause of the long-division family is additionally evaluated exactly (Fix arithmetic) on a seeded sample of 600 valid operand pairs x 4 forms: a sample, not a proof.",
         "note": TB + "Assumed lemma: 3u^2 bound of Alg. 15 (published + Coq). No published theorem exists for the qd-style long division used for TwoFloat divisors: its accuracy clause is not decided by this technique.",
         "technique": T_MITER,
     },
@@ -96,7 +96,7 @@ CLAIMS = {
         "technique": T_MIX,
     },
     "C19": {
-        "text": "Proved for all operand patterns: a % b, a % f, f % b are a - trunc(a/b)*b and %= agrees (C10); rem_euclid(a,b) is r + |b| for a negative remainder r = a % b, else r (operators arbitrary fixed functions). Complete finite check: %, %=, div_euclid, rem_euclid are exact for all 262,656 integer pairs |a|,|b| <= 256 (both f64 spellings) and on 64 pairs below 2^53. NOT decided: the 16*2^-106 tolerance for general operands.",
+        "text": "Proved for all operand patterns: a % b, a % f, f % b are a - trunc(a/b)*b and %= agrees (C10); rem_euclid(a,b) is r + |b| for a negative remainder r = a % b, else r (operators arbitrary fixed functions). Complete finite check: %, %=, div_euclid, rem_euclid are exact for all 262,656 integer pairs |a|,|b| <= 256 (both f64 spellings) and on 64 pairs below 2^53. NOT decided: the 16*2^-106 tolerance for general operands. The tolerance clause is additionally evaluated exactly on a seeded sample of 500 non-integer pairs with |a/b| <= 2^40 (% , div_euclid, rem_euclid): a sample, not a proof.",
         "note": TB,
         "technique": "contract proof of the structure (Ackermann stubs) + exhaustive native evaluation of a finite operand set",
     },
